@@ -12,6 +12,8 @@ MANIFEST_ENTRY = {
     "note": "Pause/resume and the reactor interleaving of several Segmentations are not modelled (each step contract holds in every interleaving because a Segmentation owns its offset/size); SegmentFetcher/ShareFinder (which shares deliver the segment) are C02/C03 territory.",
     "technique": "contract-based deductive verification (pyvc VCs + z3, ghost file array); DecryptingConsumer by bounded run-time contract",
 }
+MANIFEST_ENTRY["text"] += " Bounded end-to-end stand-in (run-time contract, never counted as proved): contracts/immutable_grid.py encodes seeded files with the real Encoder, serves the shares from in-memory servers with per-share faults (missing, bit-flipped, truncated, header-truncated, another file's, another encoding's, dead or dying server, slow server) and checks every ImmutableFileNode.read (whole, ranged, concurrent, paused, next to a cancelled one, after failed reads) against the plaintext."
+MANIFEST_ENTRY["technique"] += "; plus bounded end-to-end run-time scenario contracts on an in-process grid of the real components (stand-in, labelled bounded)"
 EXPLANATION = "Range arithmetic and request-queue frames of the real reader code."
 TRUSTED = ["AES-CTR (cryptography library) counts blocks from the big-endian IV"]
 ASSUMPTIONS = []
